@@ -29,7 +29,9 @@ def run(ctx):
             mres.append(m)
     if mres:
         demos.append(cc.trace_binding_demo(ctx, mres[0]["_events"][:1200] + mres[0]["_events"][-1:]))
-    # 3. id binding: the signed-field tables of Codec.tla, perturbed one field at a time on real signed objects
+    # 3. id binding: the signed-field tables of Codec.tla, perturbed one field at a time on real signed objects, for every
+    #    boundary base object of Codec.tla (base fee absent/0/1/large, alpha empty or not, COM, gas 0; tx fees / expiration /
+    #    nonce 0, empty clause list, dependsOn nil, delegated)
     ib = cc.idbind(ctx, binp, tables)
     demos.append(cc.idbind_binding_demo(ctx, binp, tables))
 
@@ -45,6 +47,8 @@ def run(ctx):
     cov["mutant_batches"] = len(mres)
     cov["mutation_ops"] = mres[0]["extra"]["ops"] if mres else {}
     cov["id_binding_perturbations"] = ib["evaluations"] if ib else 0
+    tb = __import__("json").load(open(tables))
+    cov["id_binding_base_objects"] = {"tx": len(tb["txBases"]), "header": len(tb["headerBases"])}
     cov["binding_demo"] = "; ".join(demos)
     cov["rule"] = ("evaluation = one byte string decoded by the real types through one entry point (tx UnmarshalBinary / DecodeRLP, "
                    "header, block + RawBlock, receipt), or one id-binding perturbation. distinct = distinct (entry point, bytes). "
